@@ -27,7 +27,8 @@ RULE = (
     "statuses), matching status event, two non-matching status events, timeout expiry, caller "
     "cancellation} for form / leave / bring-up, and of {response, 0..3 result callbacks, completion "
     "(ok or failed), caller cancellation, one result delivered before the scan is issued} for scans. "
-    "Three operations are played per run.  Non-trivial = the list is not just [response ok, matching "
+    "All lists of a shard are played one after the other on one EZSP instance; 'quiet' shards deliver nothing "
+    "but the operations' own completing events, so that the same status value repeats with nothing in between.  Non-trivial = the list is not just [response ok, matching "
     "event]; distinct = distinct (version, operation, event list)."
 )
 ASSUMPTIONS = [
@@ -41,7 +42,7 @@ ASSUMPTIONS = [
 REACH = {t: ["event_before_response", "event_after_timeout", "cancel_before_response", "cancel_after_response",
              "refused", "returned", "timeout_waiting_event", "command_timeout", "scan_completion_before_response",
              "scan_results_in_order", "scan_pre_issue_result_excluded", "repeated_operation", "op_form", "op_leave",
-             "op_bringup", "op_scan", "leak_probe_done"] for t in ("quick", "thorough")}
+             "op_bringup", "op_scan", "leak_probe_done", "completed_on_a_repeated_status_value"] for t in ("quick", "thorough")}
 SHARD_TIMEOUT = {"quick": 900, "thorough": 3600}
 
 
@@ -104,6 +105,11 @@ def shards(tier, seed):
     for v in vs:
         for op in ("form", "leave", "bringup", "scan"):
             out.append({"version": v, "op": op, "tier": tier, "seed": seed})
+        for op in ("form", "leave", "bringup"):
+            # "quiet" runs: nothing but the operations' own completing events is ever delivered (no
+            # probe events, no non-matching statuses), so consecutive operations on one EZSP see the
+            # same status value again and again with nothing in between
+            out.append({"version": v, "op": op, "tier": tier, "seed": seed, "quiet": True})
     return out
 
 
@@ -123,6 +129,10 @@ def run_shard(desc) -> Acc:
     UP_T = float(A.NETWORK_UP_TIMEOUT_S)
     T = UP_T if op == "bringup" else OPS_T
     cases = scan_cases(desc["tier"]) if op == "scan" else status_op_cases(desc["tier"])
+    quiet = bool(desc.get("quiet"))
+    if quiet:
+        cases = [c for c in cases if "N1" not in c and "N2" not in c]
+        cases = cases + cases  # every list is played again later in the shuffled run
     rnd = random.Random(desc["seed"] + V)
     elog = ExcLog()
     lg = logging.getLogger("bellows.ezsp")
@@ -183,7 +193,7 @@ def run_shard(desc) -> Acc:
         async def one(events):
             nonlocal inst
             inst += 1
-            case = {"version": V, "op": op, "events": events}
+            case = {"version": V, "op": op, "events": events, "quiet": quiet}
             acc.case()
             hist = []
             elog.hits.clear()
@@ -350,7 +360,7 @@ def run_shard(desc) -> Acc:
                 acc.violation("C17/leak/listener-or-callback-remains",
                               f"after {op} {events} ended ({got[0]}): callbacks/listeners {now_counts}, baseline {baseline}", case, hist)
             elog.hits.clear()
-            for kind in (match_kind, nonmatch[0]):
+            for kind in (() if quiet else (match_kind, nonmatch[0])):
                 ncp._deliver_now(ncp.encode("stackStatusHandler", [S("stackStatusHandler", kind)], seq, callback=True))
             if op == "scan":
                 ncp._deliver_now(ncp.encode("energyScanResultHandler", [1, -1], seq, callback=True))
@@ -362,8 +372,10 @@ def run_shard(desc) -> Acc:
             acc.hit("leak_probe_done")
             if inst > 1:
                 acc.hit("repeated_operation")
+            if quiet and inst > 1 and exp[0] == "ret" and got[0] == "ret":
+                acc.hit("completed_on_a_repeated_status_value")
             if events != ["Rok", "M"]:
-                acc.nontrivial((V, op, tuple(events)))
+                acc.nontrivial((V, op, tuple(events), quiet))
             if len(acc.samples) < 2 and len(events) >= 4:
                 acc.sample({"case": case, "history": [repr(h) for h in hist]})
             # a late response for a timed-out command of this instance must not disturb the next
@@ -384,4 +396,4 @@ def run_shard(desc) -> Acc:
 
 
 def replay(case) -> Acc:
-    return run_shard({"version": case["version"], "op": case["op"], "tier": "quick", "seed": 0})
+    return run_shard({"version": case["version"], "op": case["op"], "tier": "quick", "seed": 0, "quiet": case.get("quiet", False)})
